@@ -499,3 +499,5 @@ _quick("C05", "C05_mslate", "the millisecond wheel when a slot's sweeper gorouti
 _quick("C04", "C17_zerowaiter", "(also under C17) a holder and 1..2 queued requests of which the first, the second or both have Expried 0 (served, such a request holds nothing); the holder unlocks: the wake-up pass goes on until the next queued request is not admissible — nothing admissible is left at the head of the queue", ["-witness", "1"])
 
 _quick("C08", "C16_staletmp", "(also under C16) a compaction that died after writing rewrite.aof.tmp and its value file (the process stopped at that instant), a restart, the next compaction, another restart: the holds come back with their own values (a value file left behind by the interrupted compaction is not appended to)", ["-witness", "1"], reach=["end"])
+
+_quick("C07", "C08_valappend", "(also under C08) a log of valued records, restart, one more valued record persisted, second restart: every persisted hold comes back with its own value (a restart must not damage the value file it reopens for appending)", ["-witness", "4"])
